@@ -221,6 +221,11 @@ type c21Env struct {
 	proxy     *c21Proxy
 }
 
+var (
+	c21PublishTime time.Duration
+	c21Publishes   int
+)
+
 type c21Run struct {
 	obs     []c21Obs
 	fail    string
@@ -480,7 +485,10 @@ func c21Exec(env *c21Env, cs c21Case) (res c21Run) {
 				}
 				etcdBefore, _ = readEtcd() // what the held-back Txn is about to overwrite
 			})
+			tPub := time.Now()
 			err := PublishMetadataSnapshot(ctx, env.endpoints, BuildClusterMetadata(cluster, topics))
+			c21PublishTime += time.Since(tPub)
+			c21Publishes++
 			txns := env.proxy.disarm()
 			if !hookOK {
 				return false
@@ -622,8 +630,8 @@ func c21Gen(r *vRand) c21Case {
 				used[nm] = true
 				st.Crd = append(st.Crd, c21Topic{nm, int32(r.Range(0, 6))})
 			}
-			if r.Chance(45) { // broker steps committed between the operator's Get and Txn (each conflict costs its 200 ms back-off)
-				for k := r.Range(1, 2); k > 0; k-- {
+			if r.Chance(30) { // broker steps committed between the operator's Get and Txn (each conflict costs its 200 ms back-off)
+				for k := 1 + r.Intn(4)/3; k > 0; k-- {
 					ib := r.Intn(cs.Brokers)
 					switch y := r.Intn(10); {
 					case y < 5:
@@ -717,11 +725,12 @@ func TestVerifC21(t *testing.T) {
 			runOne(cs, false)
 		}
 		r := vNewRand(vSeed())
-		n := vN(250, 3000)
+		n := vN(200, 3000)
 		for i := 0; i < n; i++ {
 			runOne(c21Gen(r.Fork()), true)
 		}
 	}
+	rep.Notes = append(rep.Notes, fmt.Sprintf("%d operator publishes took %v in total (each dials its own client; a lost Txn backs off 200 ms)", c21Publishes, c21PublishTime.Round(time.Millisecond)))
 	rep.Cases("C21", "From KS Require Import lib.Base model.Snapshot corr.SnapshotCorr.", "case", "check_case", coq, jsons)
 	rep.Write()
 	if len(rep.Failures) > 0 {
